@@ -95,7 +95,8 @@ func runC09(c Case, st *Stats) error {
 		st.Eval(c.JSON(), fills > 0 || true, append(classes, "clean-close-only")...)
 		return nil
 	}
-	cs, err := exploreCrashes(c, rc, crashOpts{Torn: true}, st, "C09")
+	cs, err := exploreCrashes(c, rc, crashOpts{Torn: true, Continue: true}, st, "C09")
+	st.Class("images-continued-after-recovery(write,close,open)", cs.Continued)
 	st.Sub(cs.Images)
 	if err != nil {
 		return err
